@@ -32,7 +32,7 @@ def configs(tier, seed):
     for kind in ("video", "labels"):
         for Q in rng_:
             for B in rng_:
-                out.append(dict(kind=kind, Q=Q, B=B, tag=tag, timeout=600 if tier == "quick" else 3000))
+                out.append(dict(kind=kind, Q=Q, B=B, tag=tag, timeout=900 if tier == "quick" else 3000))
     out.append(dict(kind="twin"))
     return out
 
